@@ -6,4 +6,5 @@ CONSTANTS
   MaxDepth = 1000
   MaxLen = 64
   Forms = {"plain", "open", "neg", "over"}
+  PairFamily = "all"
 INVARIANT Report
